@@ -72,84 +72,97 @@ WStep(s, x) ==
 Init == conn = <<>> /\ stack = <<>> /\ svcD = FALSE /\ svcApp = 0
 
 -----------------------------------------------------------------------------
+(* Every event E is split into EOK (its guard: what the property allows in the current state) and EDo (the
+   state change), E == EOK /\ EDo, so that the closed model IpcLifeMC can use the guards as a monitor. *)
 (* callbacks *)
-Accept(c, ret) ==
-  /\ c = Len(conn) + 1
+AcceptOK(c, ret) == c = Len(conn) + 1
+AcceptDo(c, ret) ==
   /\ conn' = Append(conn, [ph |-> PAccepted, lib |-> 1, app |-> 0, aret |-> ret, pend |-> FALSE, ncl |-> 0,
                            ws |-> WStep(0, KAccept)])
   /\ Push(<<KAccept, c, ret>>)
   /\ UNCHANGED <<svcD, svcApp>>
+Accept(c, ret) == AcceptOK(c, ret) /\ AcceptDo(c, ret)
 
-Created(c) ==
-  /\ c \in Ids /\ conn[c].ph = PAccepted /\ conn[c].aret = 0 /\ ~Open(KAccept, c)
+CreatedOK(c) == c \in Ids /\ conn[c].ph = PAccepted /\ conn[c].aret = 0 /\ ~Open(KAccept, c)
+CreatedDo(c) ==
   /\ conn' = [conn EXCEPT ![c].ph = PCreating, ![c].lib = 2, ![c].ws = WStep(@, KCreated)]
   /\ Push(<<KCreated, c, 0>>)
   /\ UNCHANGED <<svcD, svcApp>>
+Created(c) == CreatedOK(c) /\ CreatedDo(c)
 
-Msg(c) ==
-  /\ c \in Ids /\ conn[c].ph = PEstablished
+MsgOK(c) == c \in Ids /\ conn[c].ph = PEstablished
+MsgDo(c) ==
   /\ conn' = [conn EXCEPT ![c].ws = WStep(@, KMsg)]
   /\ Push(<<KMsg, c, 0>>)
   /\ UNCHANGED <<svcD, svcApp>>
+Msg(c) == MsgOK(c) /\ MsgDo(c)
 
 (* closed: first time for an established connection; again only after it returned non-zero *)
 ClosedOK(c) == c \in Ids /\ (conn[c].ph = PEstablished \/ (conn[c].ph = PClosing /\ conn[c].pend))
-Closed(c, ret) ==
-  /\ ClosedOK(c)
+ClosedDo(c, ret) ==
   /\ conn' = [conn EXCEPT ![c].ph = PClosing, ![c].pend = FALSE, ![c].ncl = @ + 1, ![c].ws = WStep(@, KClosed)]
   /\ Push(<<KClosed, c, ret>>)
   /\ UNCHANGED <<svcD, svcApp>>
+Closed(c, ret) == ClosedOK(c) /\ ClosedDo(c, ret)
 
 (* destroyed: nobody holds a reference, the library is not inside a callback for the connection *)
 DestroyedOK(c) ==
   /\ c \in Ids /\ conn[c].app = 0 /\ ~InCallbackOf(c)
   /\ \/ conn[c].ph \in {PClosed, PDropped} /\ conn[c].lib = 0
      \/ conn[c].ph = PAccepted /\ conn[c].aret = 0        \* set-up failed after a successful accept
-Destroyed(c) ==
-  /\ DestroyedOK(c)
+DestroyedDo(c) ==
   /\ conn' = [conn EXCEPT ![c].ph = PDestroyed, ![c].lib = 0, ![c].ws = WStep(@, KDestroyed)]
   /\ Push(<<KDestroyed, c, 0>>)
   /\ UNCHANGED <<svcD, svcApp>>
+Destroyed(c) == DestroyedOK(c) /\ DestroyedDo(c)
 
 -----------------------------------------------------------------------------
 (* API calls of the application *)
-Disconnect(c) ==
-  /\ Live(c)
+DisconnectOK(c) == Live(c)
+DisconnectDo(c) ==
   /\ conn' = IF conn[c].ph = PCreating THEN [conn EXCEPT ![c].ph = PDropped, ![c].lib = @ - 1] ELSE conn
   /\ Push(<<KDisc, c, 0>>)
   /\ UNCHANGED <<svcD, svcApp>>
+Disconnect(c) == DisconnectOK(c) /\ DisconnectDo(c)
 
-Ref(c) == /\ Live(c) /\ conn' = [conn EXCEPT ![c].app = @ + 1] /\ UNCHANGED <<stack, svcD, svcApp>>
+RefOK(c) == Live(c)
+RefDo(c) == conn' = [conn EXCEPT ![c].app = @ + 1] /\ UNCHANGED <<stack, svcD, svcApp>>
+Ref(c) == RefOK(c) /\ RefDo(c)
 
-Unref(c) ==
-  /\ Live(c) /\ conn[c].app > 0
+UnrefOK(c) == Live(c) /\ conn[c].app > 0
+UnrefDo(c) ==
   /\ conn' = [conn EXCEPT ![c].app = @ - 1]
   /\ Push(<<KUnref, c, 0>>)
   /\ UNCHANGED <<svcD, svcApp>>
+Unref(c) == UnrefOK(c) /\ UnrefDo(c)
 
 (* response_send / event_send / stats: the connection must be one the application may still use *)
-Touch(c) == Live(c) /\ UNCHANGED vars
+TouchOK(c) == Live(c)
+Touch(c) == TouchOK(c) /\ UNCHANGED vars
 Stats(c) == c \in Ids /\ (Live(c) \/ Open(KDestroyed, c)) /\ UNCHANGED vars
 
 (* connection list: each call returns nothing or a live connection, referenced for the caller *)
-IterFirst(r) ==
-  /\ r = 0 \/ Live(r)
+IterFirstOK(r) == r = 0 \/ Live(r)
+IterDo(r) ==
   /\ conn' = IF r = 0 THEN conn ELSE [conn EXCEPT ![r].app = @ + 1]
   /\ UNCHANGED <<stack, svcD, svcApp>>
-IterNext(cur, r) ==
-  /\ Live(cur) /\ conn[cur].app > 0
-  /\ r = 0 \/ (Live(r) /\ r # cur)
-  /\ conn' = IF r = 0 THEN conn ELSE [conn EXCEPT ![r].app = @ + 1]
-  /\ UNCHANGED <<stack, svcD, svcApp>>
+IterFirst(r) == IterFirstOK(r) /\ IterDo(r)
+IterNextOK(cur, r) == Live(cur) /\ conn[cur].app > 0 /\ (r = 0 \/ (Live(r) /\ r # cur))
+IterNext(cur, r) == IterNextOK(cur, r) /\ IterDo(r)
 
 SvcRef == svcApp' = svcApp + 1 /\ UNCHANGED <<conn, stack, svcD>>
 SvcUnref == svcApp > 0 /\ svcApp' = svcApp - 1 /\ UNCHANGED <<conn, stack, svcD>>
 RateLimit == UNCHANGED vars
-SvcDestroy == /\ ~svcD /\ stack = <<>> /\ svcD' = TRUE /\ Push(<<KSvcDestroy, 0, 0>>) /\ UNCHANGED <<conn, svcApp>>
+SvcDestroyOK == ~svcD /\ stack = <<>>
+SvcDestroyDo == svcD' = TRUE /\ Push(<<KSvcDestroy, 0, 0>>) /\ UNCHANGED <<conn, svcApp>>
+SvcDestroy == SvcDestroyOK /\ SvcDestroyDo
 
 (* the application's main loop runs a registered descriptor callback / a queued job *)
-Fd == stack = <<>> /\ Push(<<KFd, 0, 0>>) /\ UNCHANGED <<conn, svcD, svcApp>>
-Job(c) == stack = <<>> /\ Push(<<KJob, c, 0>>) /\ UNCHANGED <<conn, svcD, svcApp>>
+LoopOK == stack = <<>>
+FdDo == Push(<<KFd, 0, 0>>) /\ UNCHANGED <<conn, svcD, svcApp>>
+Fd == LoopOK /\ FdDo
+JobDo(c) == Push(<<KJob, c, 0>>) /\ UNCHANGED <<conn, svcD, svcApp>>
+Job(c) == LoopOK /\ JobDo(c)
 
 -----------------------------------------------------------------------------
 (* return of the innermost call *)
@@ -157,8 +170,7 @@ EndOK(kind) ==
   /\ stack # <<>> /\ Top[1] = kind
   /\ kind = KDisc => conn[Top[2]].ph # PEstablished                   \* closed was invoked before disconnect returned
   /\ kind = KSvcDestroy => \A c \in Ids : conn[c].ph # PEstablished    \* ... and before destroy returned, for every connection
-End(kind) ==
-  /\ EndOK(kind)
+EndDo(kind) ==
   /\ stack' = SubSeq(stack, 1, Len(stack) - 1)
   /\ LET c == Top[2]  v == Top[3] IN
      conn' = CASE kind = KAccept /\ v # 0 -> [conn EXCEPT ![c].ph = PDropped, ![c].lib = 0]
@@ -169,6 +181,7 @@ End(kind) ==
                     [i \in Ids |-> IF conn[i].ph = PAccepted THEN [conn[i] EXCEPT !.ph = PDropped, !.lib = 0] ELSE conn[i]]
                [] OTHER -> conn
   /\ UNCHANGED <<svcD, svcApp>>
+End(kind) == EndOK(kind) /\ EndDo(kind)
 
 (* end of a run: clients gone, references dropped, service destroyed, loop drained *)
 FinalOK(leftFds, leftJobs) == stack = <<>> /\ (\A c \in Ids : conn[c].ph = PDestroyed) /\ leftFds = 0 /\ leftJobs = 0
